@@ -8,7 +8,7 @@
 //! To add an input kind: implement `HInput` for its input type here, add a variant to `ast::IKind`, a runner
 //! to `kinds.rs`, and a worker crate (`./gen-workers.sh`).
 
-use std::cell::RefCell;
+use std::cell::{Cell, RefCell};
 use std::rc::Rc;
 
 use chumsky::input::{
@@ -18,6 +18,7 @@ use chumsky::input::{
 use chumsky::inspector::Inspector;
 use chumsky::span::{SimpleSpan, Span};
 
+use crate::ast::GROUP_ID_MIN;
 use crate::build::{self, Ex, Res, P, PU};
 use crate::errs::HErr;
 use crate::val::{Fn1, HTok, Pos, Pred};
@@ -81,6 +82,32 @@ impl HSpan for SimpleSpan<usize, u8> {
     }
 }
 
+// ---------- the caller's buffer ----------
+
+/// A shared handle on "the buffer that is being parsed": what the closures of a built parser use to convert
+/// raw offsets to token indices and to locate slices. For an ordinary case it is set once; a history case
+/// builds the parser once and points the handle at each input in turn (`HInput::retarget`).
+pub struct Cur<T: Copy>(Rc<Cell<T>>);
+
+impl<T: Copy> Cur<T> {
+    pub fn new(t: T) -> Self {
+        Cur(Rc::new(Cell::new(t)))
+    }
+    #[inline]
+    pub fn get(&self) -> T {
+        self.0.get()
+    }
+    pub fn set(&self, t: T) {
+        self.0.set(t)
+    }
+}
+
+impl<T: Copy> Clone for Cur<T> {
+    fn clone(&self) -> Self {
+        Cur(self.0.clone())
+    }
+}
+
 // ---------- input kinds ----------
 
 pub trait HInput<'a>: Input<'a, Token: HTok, Span: HSpan> + Sized + 'a {
@@ -92,6 +119,15 @@ pub trait HInput<'a>: Input<'a, Token: HTok, Span: HSpan> + Sized + 'a {
 
     /// Convert a raw span offset of this kind (e.g. a byte offset) to a printed position.
     fn pos(cv: &Self::Conv, raw: usize) -> Pos;
+
+    /// Point the handle `cv` (shared with the closures of a built parser) at the buffer of `to`.
+    /// Only the kinds whose `Conv` is a `Cur` can do that; history cases need it.
+    fn retarget(_cv: &Self::Conv, _to: &Self::Conv) {}
+
+    /// `(NestedIn a)`: only the `tree` kind has tokens that contain inputs.
+    fn nested_in<E: HErr<'a, Self>>(_a: P<'a, Self, E>) -> Res<P<'a, Self, E>> {
+        build::unsupported("NestedIn: only on the tree kind")
+    }
 
     /// `(Just ts)`: `just(c)` for one token, else `just(String)` / `just(Vec<Token>)`.
     fn just<E: HErr<'a, Self>>(ts: &[u32]) -> P<'a, Self, E>;
@@ -196,27 +232,36 @@ macro_rules! slice_impl {
     (str) => {
         const HAS_SLICE: bool = true;
         fn to_slice<E: HErr<'a, Self>>(cv: &Self::Conv, p: P<'a, Self, E>) -> Res<P<'a, Self, E>> {
-            let whole: &'a str = *cv;
-            Ok(build::to_slice_with(p, move |part: &'a str| str_slice_range(whole, part)))
+            let whole = cv.clone();
+            Ok(build::to_slice_with(p, move |part: &'a str| str_slice_range(whole.get(), part)))
         }
         fn extra_slice<E: HErr<'a, Self>>(
             cv: &Self::Conv,
             e: &mut MapExtra<'a, '_, Self, Ex<E>>,
         ) -> Option<(Pos, Pos)> {
-            Some(str_slice_range(cv, e.slice()))
+            Some(str_slice_range(cv.get(), e.slice()))
         }
     };
     (elems, $t:ty) => {
         const HAS_SLICE: bool = true;
         fn to_slice<E: HErr<'a, Self>>(cv: &Self::Conv, p: P<'a, Self, E>) -> Res<P<'a, Self, E>> {
-            let whole: &'a [$t] = *cv;
-            Ok(build::to_slice_with(p, move |part: &'a [$t]| elems_slice_range(whole, part)))
+            let whole = cv.clone();
+            Ok(build::to_slice_with(p, move |part: &'a [$t]| elems_slice_range(whole.get(), part)))
         }
         fn extra_slice<E: HErr<'a, Self>>(
             cv: &Self::Conv,
             e: &mut MapExtra<'a, '_, Self, Ex<E>>,
         ) -> Option<(Pos, Pos)> {
-            Some(elems_slice_range(cv, e.slice()))
+            Some(elems_slice_range(cv.get(), e.slice()))
+        }
+    };
+}
+
+/// `retarget` for the kinds whose `Conv` is a `Cur`.
+macro_rules! cur_impl {
+    () => {
+        fn retarget(cv: &Self::Conv, to: &Self::Conv) {
+            cv.set(to.get());
         }
     };
 }
@@ -265,10 +310,11 @@ fn elems_slice_range<T>(whole: &[T], part: &[T]) -> (Pos, Pos) {
 // ----- str: &str -----
 
 impl<'a> HInput<'a> for &'a str {
-    type Conv = &'a str;
-    fn pos(cv: &&'a str, raw: usize) -> Pos {
-        str_pos(cv, raw)
+    type Conv = Cur<&'a str>;
+    fn pos(cv: &Self::Conv, raw: usize) -> Pos {
+        str_pos(cv.get(), raw)
     }
+    cur_impl!();
     seq_impl!(string);
     value_impl!(string);
     slice_impl!(str);
@@ -277,20 +323,22 @@ impl<'a> HInput<'a> for &'a str {
 // ----- slice: &[char]; bytes: &[u8] -----
 
 impl<'a> HInput<'a> for &'a [char] {
-    type Conv = &'a [char];
-    fn pos(cv: &&'a [char], raw: usize) -> Pos {
-        index_pos(cv.len(), raw)
+    type Conv = Cur<&'a [char]>;
+    fn pos(cv: &Self::Conv, raw: usize) -> Pos {
+        index_pos(cv.get().len(), raw)
     }
+    cur_impl!();
     seq_impl!(vec);
     value_impl!(vec);
     slice_impl!(elems, char);
 }
 
 impl<'a> HInput<'a> for &'a [u8] {
-    type Conv = &'a [u8];
-    fn pos(cv: &&'a [u8], raw: usize) -> Pos {
-        index_pos(cv.len(), raw)
+    type Conv = Cur<&'a [u8]>;
+    fn pos(cv: &Self::Conv, raw: usize) -> Pos {
+        index_pos(cv.get().len(), raw)
     }
+    cur_impl!();
     seq_impl!(vec);
     value_impl!(vec);
     slice_impl!(elems, u8);
@@ -299,10 +347,11 @@ impl<'a> HInput<'a> for &'a [u8] {
 // ----- array: &[char; N] -----
 
 impl<'a, const N: usize> HInput<'a> for &'a [char; N] {
-    type Conv = &'a [char];
-    fn pos(cv: &&'a [char], raw: usize) -> Pos {
-        index_pos(cv.len(), raw)
+    type Conv = Cur<&'a [char]>;
+    fn pos(cv: &Self::Conv, raw: usize) -> Pos {
+        index_pos(cv.get().len(), raw)
     }
+    cur_impl!();
     seq_impl!(vec);
     value_impl!(vec);
     slice_impl!(elems, char);
@@ -403,10 +452,11 @@ pub type MappedIn<'a> =
     MappedInput<char, SimpleSpan<usize>, &'a [Spanned], fn(&'a Spanned) -> (&'a char, &'a SimpleSpan<usize>)>;
 
 impl<'a> HInput<'a> for MappedIn<'a> {
-    type Conv = &'a [Spanned];
-    fn pos(_cv: &&'a [Spanned], raw: usize) -> Pos {
+    type Conv = Cur<&'a [Spanned]>;
+    fn pos(_cv: &Self::Conv, raw: usize) -> Pos {
         Pos::Ix(raw)
     }
+    cur_impl!();
     seq_impl!(vec);
     value_impl!(vec);
     // slices are slices of the original `&[(char, SimpleSpan)]`: printed as token indices
@@ -449,11 +499,12 @@ pub fn shift_span(s: SimpleSpan<usize>) -> SimpleSpan<usize> {
 pub type MapSpanIn<'a> = MappedSpan<SimpleSpan<usize>, &'a str, fn(SimpleSpan<usize>) -> SimpleSpan<usize>>;
 
 impl<'a> HInput<'a> for MapSpanIn<'a> {
-    type Conv = &'a str;
-    fn pos(cv: &&'a str, raw: usize) -> Pos {
+    type Conv = Cur<&'a str>;
+    cur_impl!();
+    fn pos(cv: &Self::Conv, raw: usize) -> Pos {
         // convert back: subtract the shift, then byte offset -> char index
         match raw.checked_sub(MAPSPAN_SHIFT) {
-            Some(b) => match str_pos(cv, b) {
+            Some(b) => match str_pos(cv.get(), b) {
                 Pos::Ix(i) => Pos::Ix(i),
                 Pos::Bad(_) => Pos::Bad(raw),
             },
@@ -470,10 +521,11 @@ impl<'a> HInput<'a> for MapSpanIn<'a> {
 pub type WithCtxIn<'a> = WithContext<SimpleSpan<usize, u8>, &'a str>;
 
 impl<'a> HInput<'a> for WithCtxIn<'a> {
-    type Conv = &'a str;
-    fn pos(cv: &&'a str, raw: usize) -> Pos {
-        str_pos(cv, raw)
+    type Conv = Cur<&'a str>;
+    fn pos(cv: &Self::Conv, raw: usize) -> Pos {
+        str_pos(cv.get(), raw)
     }
+    cur_impl!();
     seq_impl!(string);
     value_impl!(string);
     slice_impl!(str);
@@ -491,4 +543,114 @@ impl<'a> HInput<'a> for IoIn {
     }
     seq_impl!(vec);
     value_impl!(vec);
+}
+
+// ----- tree: token trees (`nested_in`); spans are printed raw -----
+
+/// A token of the `tree` kind: a leaf or a group of spanned tokens. Leaves compare by char, groups by id.
+#[derive(Clone, Debug)]
+pub enum TT {
+    Leaf(char),
+    Group(u32, Vec<STT>),
+}
+
+pub type STT = (TT, SimpleSpan<usize>);
+
+impl PartialEq for TT {
+    fn eq(&self, other: &TT) -> bool {
+        match (self, other) {
+            (TT::Leaf(a), TT::Leaf(b)) => a == b,
+            (TT::Group(a, _), TT::Group(b, _)) => a == b,
+            _ => false,
+        }
+    }
+}
+
+impl HTok for TT {
+    /// A char is a leaf; a group id stands for "the group with that id" (equality is by id).
+    fn from_u32(n: u32) -> Option<TT> {
+        if n >= GROUP_ID_MIN {
+            Some(TT::Group(n, Vec::new()))
+        } else {
+            char::from_u32(n).map(TT::Leaf)
+        }
+    }
+    fn to_u32(&self) -> u32 {
+        match self {
+            TT::Leaf(c) => *c as u32,
+            TT::Group(id, _) => *id,
+        }
+    }
+}
+
+/// `|(t, s)| (t, s)` on a borrowed spanned tree token.
+pub fn split_tt<'a>(p: &'a STT) -> (&'a TT, &'a SimpleSpan<usize>) {
+    let (t, s) = p;
+    (t, s)
+}
+
+/// The end-of-input span of a token sequence of the mapped kinds and of the `tree` kind: `E..E` with
+/// `E` = (end of the last token) + 2, or `3..3` for the empty sequence.
+pub fn eoi_of<T>(toks: &[(T, SimpleSpan<usize>)]) -> SimpleSpan<usize> {
+    let e = match toks.last() {
+        Some((_, s)) => s.end + 2,
+        None => 3,
+    };
+    SimpleSpan::from(e..e)
+}
+
+pub type TreeIn<'a> =
+    MappedInput<TT, SimpleSpan<usize>, &'a [STT], fn(&'a STT) -> (&'a TT, &'a SimpleSpan<usize>)>;
+
+/// `toks.map(eoi_of(toks), |(t, s)| (t, s))`: the top-level input and the input made of a group's children.
+pub fn tree_input<'a>(toks: &'a [STT]) -> TreeIn<'a> {
+    <&'a [STT] as Input<'a>>::map(toks, eoi_of(toks), split_tt as fn(&'a STT) -> (&'a TT, &'a SimpleSpan<usize>))
+}
+
+/// The token sequence (the top level or the children of some group) that `part` is a slice of, found by
+/// address; the slice is printed as a token-index range of that sequence.
+fn tree_slice_range(root: &[STT], part: &[STT]) -> (Pos, Pos) {
+    fn find<'t>(seq: &'t [STT], part: &[STT]) -> Option<&'t [STT]> {
+        let (lo, hi) = (seq.as_ptr() as usize, seq.as_ptr() as usize + std::mem::size_of_val(seq));
+        let (s, e) = (part.as_ptr() as usize, part.as_ptr() as usize + std::mem::size_of_val(part));
+        if lo <= s && e <= hi {
+            return Some(seq);
+        }
+        seq.iter().find_map(|(t, _)| match t {
+            TT::Group(_, children) => find(children, part),
+            TT::Leaf(_) => None,
+        })
+    }
+    match find(root, part) {
+        Some(seq) => elems_slice_range(seq, part),
+        None => (Pos::Bad(part.as_ptr() as usize), Pos::Bad(part.len())),
+    }
+}
+
+impl<'a> HInput<'a> for TreeIn<'a> {
+    /// the top-level sequence
+    type Conv = Cur<&'a [STT]>;
+    fn pos(_cv: &Self::Conv, raw: usize) -> Pos {
+        Pos::Ix(raw)
+    }
+    cur_impl!();
+    seq_impl!(vec);
+    value_impl!(vec);
+
+    // slices are slices of the top-level `&[(TT, SimpleSpan)]` or of a group's children
+    const HAS_SLICE: bool = true;
+    fn to_slice<E: HErr<'a, Self>>(cv: &Self::Conv, p: P<'a, Self, E>) -> Res<P<'a, Self, E>> {
+        let root = cv.clone();
+        Ok(build::to_slice_with(p, move |part: &'a [STT]| tree_slice_range(root.get(), part)))
+    }
+    fn extra_slice<E: HErr<'a, Self>>(
+        cv: &Self::Conv,
+        e: &mut MapExtra<'a, '_, Self, Ex<E>>,
+    ) -> Option<(Pos, Pos)> {
+        Some(tree_slice_range(cv.get(), e.slice()))
+    }
+
+    fn nested_in<E: HErr<'a, Self>>(a: P<'a, Self, E>) -> Res<P<'a, Self, E>> {
+        Ok(build::nested_tree(a))
+    }
 }
